@@ -384,6 +384,10 @@ class ApplyLayoutCastMemrefGlobal(RewritePattern):
             for other in global_op.parent_op().walk()  # pyright: ignore[reportOptionalMemberAccess]
         ):
             return
+        # the data of a global that already has a layout (e.g. one transformed for another
+        # layout cast of the same get_global) is not row-major: only plain globals are transformed
+        if not isa(global_op.type, builtin.MemRefType[Attribute]) or not isinstance(global_op.type.layout, builtin.NoneAttr):
+            return
 
         # apply transformation
         if isa(
